@@ -388,7 +388,7 @@ func runCheck(prop, tier string, seed int64, workers int) int {
 		fmt.Fprintln(os.Stderr, "no check defined for", prop)
 		return 2
 	}
-	budget := 4 * time.Minute
+	budget := 6 * time.Minute
 	if tier == "thorough" {
 		budget = 25 * time.Minute
 		if prop == "C12" {
@@ -469,7 +469,7 @@ func runC10(rep *engines.Report, p *pool.Pool, tier string) int {
 	badLevel := rig.Config{RecordSize: 20, Compression: "gzip", Level: "no-such-level"}
 	specs := []engines.E3Spec{{Name: "F/none/rs20", Cfg: cfgNone, Alphabet: engines.FaultAlphabet(false), Finals: engines.InitFinals(), Depth: 4},
 		{Name: "F/gzip+unsupported-level/rs20", Cfg: badLevel, Alphabet: engines.FaultAlphabet(false), Depth: 2}}
-	budget := 4 * time.Minute
+	budget := 6 * time.Minute
 	if tier != "quick" {
 		specs = []engines.E3Spec{
 			{Name: "F/none/rs20", Cfg: cfgNone, Alphabet: engines.FaultAlphabet(false), Finals: engines.InitFinals(), Depth: 4},
@@ -534,7 +534,7 @@ func runE2(rep *engines.Report, p *pool.Pool, prop, tier string) int {
 		return 2
 	}
 	policy, shards := "quick", 2
-	budget := 4 * time.Minute
+	budget := 6 * time.Minute
 	if tier != "quick" {
 		policy, shards = "all", 48
 		budget = 25 * time.Minute
@@ -642,7 +642,7 @@ func runC03(rep *engines.Report, p *pool.Pool, tier string) int {
 			}
 		}
 	}
-	budget := 4 * time.Minute
+	budget := 6 * time.Minute
 	if tier != "quick" {
 		budget = 25 * time.Minute
 	}
@@ -746,7 +746,7 @@ func runC08(rep *engines.Report, p *pool.Pool, tier string) int {
 	type pl struct{ sig, enc, comp string }
 	pls := []pl{{"minisign", "", ""}, {"pgp", "", ""}, {"pgp", "age", "gzip"}, {"minisign", "pgp", "zstandard"}}
 	policy, shards := "quick", 12
-	budget := 4 * time.Minute
+	budget := 6 * time.Minute
 	if tier != "quick" {
 		pls = nil
 		for _, s := range []string{"minisign", "pgp"} {
@@ -1047,7 +1047,21 @@ func racePass(rep *engines.Report) {
 			_ = cmd.Process.Kill()
 			<-done
 		}
-		races := strings.Count(errb.String(), "WARNING: DATA RACE")
+		// only reports that involve code of the repository count (a report whose frames are all in the harness is the
+		// harness's own problem, never a verdict)
+		races := 0
+		for _, blk := range strings.Split(errb.String(), "WARNING: DATA RACE")[1:] {
+			if i := strings.Index(blk, "=================="); i >= 0 {
+				blk = blk[:i]
+			}
+			for _, ln := range strings.Split(blk, "\n") {
+				ln = strings.TrimSpace(ln)
+				if strings.HasPrefix(ln, "github.com/pojntfx/stfs/") && !strings.HasPrefix(ln, "github.com/pojntfx/stfs/pkg/zzverif/") {
+					races++
+					break
+				}
+			}
+		}
 		results = append(results, result{scn.Name, strings.TrimSpace(out.String()), races})
 		if races > 0 {
 			// class = scenario + the first stfs frames of the report
